@@ -41,7 +41,9 @@ Qed.
 (* the refutation side: the unguarded statement "a failing request leaves the database able to
    serve the next one" is false in the model as soon as a request panics in a pool thread: the
    worker is lost, and with the last worker gone every later query hangs (witness: one worker,
-   one request whose task panics — e.g. OFFSET beyond the row count, finding F5) *)
+   one request whose task panics - still reachable on the repaired tree: SELECT SUM(i) +
+   9223372036854775807 (finding F27), a constant select item (F32), ORDER BY a nullable column
+   with a small LIMIT (F23)) *)
 Theorem C11_panic_damages :
   let d := {| alive := 1; ingest_poisoned := false; table_poisoned := false; flush_dead := false |} in
   healthy d = true /\
@@ -54,9 +56,21 @@ Theorem C11_pool_panics_lose_workers :
   forall k d, alive (apply_round d (repeat (RQuery, OCanceled 1) k)) = alive d - k.
 Proof. exact pool_panics_lose_workers. Qed.
 
-(* a caller-side panic below ingest_efficient (findings F11, F12) poisons the ingestion lock: every
-   later ingestion panics and force_flush never returns *)
-Theorem C11_ingest_panic_damages :
+(* a panicking flush job (still reachable: compaction of a hex-packed string column, finding F2)
+   leaves wal_flush waiting forever: this and every later force_flush never return, everything
+   else keeps working *)
+Theorem C11_flush_job_panic_damages :
+  forall a, a <> 0 ->
+  let d := {| alive := a; ingest_poisoned := false; table_poisoned := false; flush_dead := false |} in
+  snd (run d [[(RFlush, OHang 0 HNone)]]) = [[OOk; OHang 0 HNone; OOk; OOk]].
+Proof.
+  intros a H. cbn. destruct a; [contradiction|]. reflexivity.
+Qed.
+
+(* what a caller-side panic below ingest_efficient does (it holds the wal_size lock): every later
+   ingestion panics and force_flush never returns.  The two reachable instances (F11, F12) are fixed
+   (1c4a1c7, 1eb96cd); the statement stays as the model's account of that panic site class *)
+Example C11_example_ingest_lock_poison :
   forall a, a <> 0 ->
   let d := {| alive := a; ingest_poisoned := false; table_poisoned := false; flush_dead := false |} in
   snd (run d [[(RIngest, OCallerPanic HIngest)]]) = [[OCallerPanic HNone; OHang 0 HNone; OOk; OOk]].
@@ -129,8 +143,8 @@ Example C11_example_values :
   = (d, [all_ok; all_ok]).
 Proof. vm_compute. reflexivity. Qed.
 
-(* a table lock poisoned by a caller-side panic (finding F4): table_stats kills a worker per call,
-   force_flush kills the flush thread and poisons the ingestion lock on the way *)
+(* a table lock poisoned by a caller-side panic (the former finding F4, fixed by f5be0e2): table_stats
+   kills a worker per call, force_flush kills the flush thread and poisons the ingestion lock on the way *)
 Example C11_example_table_poison :
   let d := {| alive := 2; ingest_poisoned := false; table_poisoned := false; flush_dead := false |} in
   snd (run d [[(RIngest, OCallerPanic HTable)]; [(RQuery, OOk)]])
